@@ -593,3 +593,59 @@ package profile
 //@     invariant 0 <= $i && $i <= len(s.Location)
 //@     invariant forall k int :: 0 <= k && k < len(p.Sample) ==> p.Sample[k] != nil
 //@          && forall j int :: 0 <= j && j < len(p.Sample[k].Location) ==> p.Sample[k].Location[j] != nil
+
+// ---- C02: the validity gate ----
+
+// The validity contract of the property: every sample has one value per sample type and non-nil locations;
+// mappings, functions and locations are non-nil, have non-zero pairwise distinct ids; every location's mapping
+// and every line's function is present in the profile's table.
+//@ spec macro func samplesvalid(p *Profile) bool = forall i int :: 0 <= i && i < len(p.Sample) ==> p.Sample[i] != nil
+//@     && len(p.Sample[i].Value) == len(p.SampleType) && forall j int :: 0 <= j && j < len(p.Sample[i].Location) ==> p.Sample[i].Location[j] != nil
+//@ spec macro func mappingsvalid(p *Profile) bool = (forall i int :: 0 <= i && i < len(p.Mapping) ==> p.Mapping[i] != nil && p.Mapping[i].ID != 0)
+//@     && forall a int, b int :: 0 <= a && a < b && b < len(p.Mapping) ==> p.Mapping[a].ID != p.Mapping[b].ID
+//@ spec macro func functionsvalid(p *Profile) bool = (forall i int :: 0 <= i && i < len(p.Function) ==> p.Function[i] != nil && p.Function[i].ID != 0)
+//@     && forall a int, b int :: 0 <= a && a < b && b < len(p.Function) ==> p.Function[a].ID != p.Function[b].ID
+//@ spec macro func locationsvalid(p *Profile) bool = (forall i int :: 0 <= i && i < len(p.Location) ==> p.Location[i] != nil && p.Location[i].ID != 0
+//@        && (p.Location[i].Mapping == nil || exists k int :: 0 <= k && k < len(p.Mapping) && p.Mapping[k] == p.Location[i].Mapping)
+//@        )
+//@     && (forall i int, j int :: 0 <= i && i < len(p.Location) && 0 <= j && j < len(p.Location[i].Line) ==> p.Location[i].Line[j].Function != nil
+//@             && exists k int :: 0 <= k && k < len(p.Function) && p.Function[k] == p.Location[i].Line[j].Function)
+//@     && forall a int, b int :: 0 <= a && a < b && b < len(p.Location) ==> p.Location[a].ID != p.Location[b].ID
+
+//@ func Profile.CheckValid arith bv
+//@   requires p != nil
+//@   ensures samples: result == nil ==> samplesvalid(p) && (len(p.Sample) == 0 || len(p.SampleType) != 0)
+//@   ensures mappings: result == nil ==> mappingsvalid(p)
+//@   ensures functions: result == nil ==> functionsvalid(p)
+//@   ensures locations: result == nil ==> locationsvalid(p)
+//@   loop 1
+//@     invariant 0 <= $i && $i <= len(p.Sample) && sampleLen == len(p.SampleType)
+//@     invariant forall i int :: 0 <= i && i < $i ==> p.Sample[i] != nil
+//@       && len(p.Sample[i].Value) == len(p.SampleType) && forall j int :: 0 <= j && j < len(p.Sample[i].Location) ==> p.Sample[i].Location[j] != nil
+//@   loop 2
+//@     invariant 0 <= $i && $i <= len(s.Location) && sampleLen == len(p.SampleType)
+//@     invariant forall j int :: 0 <= j && j < $i ==> s.Location[j] != nil
+//@   loop 3
+//@     invariant 0 <= $i && $i <= len(p.Mapping) && mappings != nil
+//@     invariant forall i int :: 0 <= i && i < $i ==> p.Mapping[i] != nil && p.Mapping[i].ID != 0 && has(mappings, p.Mapping[i].ID) && mappings[p.Mapping[i].ID] == p.Mapping[i]
+//@     invariant forall id uint64 :: has(mappings, id) && mappings[id] != nil ==> exists k int :: 0 <= k && k < $i && p.Mapping[k] == mappings[id] && p.Mapping[k].ID == id
+//@     invariant forall a int, b int :: 0 <= a && a < b && b < $i ==> p.Mapping[a].ID != p.Mapping[b].ID
+//@   loop 4
+//@     invariant 0 <= $i && $i <= len(p.Function) && functions != nil
+//@     invariant forall i int :: 0 <= i && i < $i ==> p.Function[i] != nil && p.Function[i].ID != 0 && has(functions, p.Function[i].ID) && functions[p.Function[i].ID] == p.Function[i]
+//@     invariant forall id uint64 :: has(functions, id) && functions[id] != nil ==> exists k int :: 0 <= k && k < $i && p.Function[k] == functions[id] && p.Function[k].ID == id
+//@     invariant forall a int, b int :: 0 <= a && a < b && b < $i ==> p.Function[a].ID != p.Function[b].ID
+//@   loop 5
+//@     invariant 0 <= $i && $i <= len(p.Location) && locations != nil
+//@     invariant forall id uint64 :: has(mappings, id) && mappings[id] != nil ==> exists k int :: 0 <= k && k < len(p.Mapping) && p.Mapping[k] == mappings[id]
+//@     invariant forall id uint64 :: has(functions, id) && functions[id] != nil ==> exists k int :: 0 <= k && k < len(p.Function) && p.Function[k] == functions[id]
+//@     invariant forall i int :: 0 <= i && i < $i ==> p.Location[i] != nil && p.Location[i].ID != 0 && has(locations, p.Location[i].ID) && locations[p.Location[i].ID] == p.Location[i]
+//@     invariant forall i int :: 0 <= i && i < $i ==> (p.Location[i].Mapping == nil || exists k int :: 0 <= k && k < len(p.Mapping) && p.Mapping[k] == p.Location[i].Mapping)
+//@     invariant forall i int, j int :: 0 <= i && i < $i && 0 <= j && j < len(p.Location[i].Line) ==> p.Location[i].Line[j].Function != nil
+//@            && exists k int :: 0 <= k && k < len(p.Function) && p.Function[k] == p.Location[i].Line[j].Function
+//@     invariant forall id uint64 :: has(locations, id) && locations[id] != nil ==> exists k int :: 0 <= k && k < $i && p.Location[k] == locations[id] && p.Location[k].ID == id
+//@     invariant forall a int, b int :: 0 <= a && a < b && b < $i ==> p.Location[a].ID != p.Location[b].ID
+//@   loop 6
+//@     invariant 0 <= $i && $i <= len(l.Line)
+//@     invariant forall id uint64 :: has(functions, id) && functions[id] != nil ==> exists k int :: 0 <= k && k < len(p.Function) && p.Function[k] == functions[id]
+//@     invariant forall j int :: 0 <= j && j < $i ==> l.Line[j].Function != nil && exists k int :: 0 <= k && k < len(p.Function) && p.Function[k] == l.Line[j].Function
